@@ -12,6 +12,12 @@ def cast : List Addr := [1, 2, 3, 4, 5, 6, 7, 8, 9, 100, 101, 102, 103, 104, 105
 def crowd : List Addr := (List.range 45).map (· + 301)
 def castAll : List Addr := cast ++ crowd
 
+/-- On the wire an address is a string, and one account has several spellings (bech32 and hex are
+    case-insensitive). Ids 1000..1999 of the line protocol stand for the upper-case spelling of the
+    address `id - 1000`; everything behind the parser works with the canonical id. -/
+def isAltSpelling (a : Addr) : Bool := 1000 ≤ a && a < 2000
+def canonSpelling (a : Addr) : Addr := if isAltSpelling a then a - 1000 else a
+
 def optS (o : Option Nat) : String := match o with | some a => toString a | none => "-"
 def joinC (l : List String) : String := String.intercalate "," l
 
@@ -28,11 +34,14 @@ def hubStateS (h : HubSt) : String :=
          toString h.lastIndexMod, toString h.prevHubBalance, toString h.lastUnbondedTime,
          toString h.lastProcessedBatch]
 
+def histEntryS (i : Nat) (x : History) : String :=
+  String.intercalate ":" [toString i, toString x.time, toString x.bAmt,
+      toString x.bApplied, toString x.bWithdraw, toString x.sAmt, toString x.sApplied,
+      toString x.sWithdraw, if x.released then "1" else "0"]
+
 def histS (h : HubSt) : String :=
   String.intercalate ";" ((List.range (h.batchId + 1)).filterMap (fun i =>
-    (h.hist i).map (fun x => String.intercalate ":" [toString i, toString x.time, toString x.bAmt,
-      toString x.bApplied, toString x.bWithdraw, toString x.sAmt, toString x.sApplied,
-      toString x.sWithdraw, if x.released then "1" else "0"])))
+    (h.hist i).map (fun x => histEntryS i x)))
 
 def tokenS (t : Token) (b : Block) : String :=
   let bals := castAll.filterMap (fun a => if t.bal a = 0 then none else some s!"{a}:{t.bal a}")
@@ -252,6 +261,11 @@ def step (s : Sys) (line : String) : Sys × String :=
   | ["env", "unbondingtime", n] => match pNat n with
     | some n => let s' := { s with chain := { s.chain with unbondingTime := n } }; (s', "ok | " ++ observe s')
     | none => bad
+  -- read paths with arguments (the argument-free ones are part of every observation)
+  | ["q", "hist", st, lim] => match pOpt st, pOpt lim with
+    | some st, some lim =>
+      (s, "ok | page=[" ++ String.intercalate ";" ((s.hub.allHistory st lim).map (fun p => histEntryS p.1 p.2)) ++ "]")
+    | _, _ => bad
   | ["reset"] => (sys0, "ok | reset")
   | "inst" :: "hub" :: rest => match pNats rest with
     | some [sender, epoch, unb, fee, thr, rd, upd] =>
@@ -261,12 +275,15 @@ def step (s : Sys) (line : String) : Sys × String :=
     | _ => bad
   | "inst" :: "bsei" :: _sender :: hub :: rest => match pNat hub, pPairs rest with
     | some hub, some bals =>
-      match tokInit true hub bals with
+      -- cw20-legacy keys accounts by the canonical address: a second spelling is the same account
+      match tokInit true hub (bals.map (fun x => (canonSpelling x.1, x.2))) with
       | .ok t => let s' := { s with bsei := t }; (s', "ok | " ++ observe s')
       | .error e => (s, "err:" ++ e ++ " | " ++ observe s)
     | _, _ => bad
   | "inst" :: "stsei" :: _sender :: hub :: rest => match pNat hub, pPairs rest with
     | some hub, some bals =>
+      -- cw20-base validates every address: a spelling that is not the normal form is rejected
+      if bals.any (fun x => isAltSpelling x.1) then (s, "err:address not normalized | " ++ observe s) else
       match tokInit false hub bals with
       | .ok t => let s' := { s with stsei := t }; (s', "ok | " ++ observe s')
       | .error e => (s, "err:" ++ e ++ " | " ++ observe s)
